@@ -4,6 +4,9 @@ use crate::server::handler::{RequestHandler, ServerHandlerMap};
 use crate::server::address_filter::AddressFilter;
 use crate::shims::net2::{TcpListener, TcpStream, SocketAddr};
 use crate::server::handler::AuthorizationHandler;
+use crate::common::frame::{FrameWriter, FramedReader};
+use crate::common::phys::PhysLayer;
+use crate::server::task::AuthorizationType;
 
 //@item rodbus/src/tcp/server.rs | SessionClose
 // the session-close and server-command queues carry no invariant: `queue_inv` is `true` at these types (definition)
@@ -23,9 +26,21 @@ impl Clone for TcpServerConnectionHandler {
 //@trusted TcpServerConnectionHandler: #[derive(Clone)] replaced by a clone() with `ensures r == *self` (structural clone; Arc::clone shares the handler)
 //@item rodbus/src/tcp/server.rs | ServerTask
 //@trusted session ids do not overflow u128 (assumed at the entry of ServerTask::handle: 2^128 accepted connections are out of reach)
-//@trusted run_session (TLS handshake, then SessionTask::run over the socket): assumed contract (external_body), no postcondition used
 
-//@fn rodbus/src/tcp/server.rs | run_session | tags=C15 | ext_body
+impl TcpServerConnectionHandler {
+// [C09] a server configured for TLS hands the session only a layer that came out of the handshake under its configuration, with the
+// authorization that handshake produced for the configured handler; a plain TCP server hands a plain layer without authorization
+//@fn rodbus/src/tcp/server.rs | TcpServerConnectionHandler::handle | tags=C08,C09
+//@|    ensures *final(self) == *old(self),
+//@|        *old(self) is Tcp ==> r is Ok && r->Ok_0.0.tls_by is None && r->Ok_0.1 is None && r->Ok_0.0.auth is None,
+//@|        *old(self) matches TcpServerConnectionHandler::Tls(c, a) ==> (r matches Ok(p) ==> p.0.tls_by == Some(c.id) && p.0.auth == p.1
+//@|            && (a is None ==> p.1 is None) && (a matches Some(h) ==> p.1 is Handler && vstd::pervasive::cloned::<std::sync::Arc<dyn AuthorizationHandler>>(h, p.1->Handler_0))),   // (a clone of the configured Arc: the same handler)
+}
+
+// [C05,C08,C09,C15] the session of an accepted connection: nothing runs when the upgrade (TLS handshake) fails; otherwise one MBAP
+// session runs over exactly the layer the upgrade returned, with exactly the authorization it returned (the preconditions of
+// SessionTask::run, proved at the call)
+//@fn rodbus/src/tcp/server.rs | run_session | tags=C05,C08,C09,C15
 
 impl<T> ServerTask<T> where T: RequestHandler {
     // the task keeps a sender of its own session-close channel, so that channel never reports "closed" [C07: the unwrap in run cannot panic]
